@@ -349,7 +349,7 @@ func (w *World) projectNet() map[string]interface{} {
 			for _, p := range r.HTTP.Paths {
 				paths++
 				want := SvcName + "-canary"
-				if w.Cfg.TRRef { // only-traffic-routing mode: no canary Service is generated, the canary backend is the stable Service
+				if w.Cfg.TRRef || w.Cfg.NoCanarySvc { // no canary Service is generated: the canary backend is the stable Service
 					want = SvcName
 				}
 				if p.Backend.Service == nil || p.Backend.Service.Name != want {
